@@ -2,6 +2,7 @@ package c18
 
 import (
 	"math/rand"
+	"os"
 	"testing"
 	"time"
 
@@ -32,7 +33,7 @@ import (
 // responsive peers are real sockets over a real transport.
 
 type spec struct {
-	Kind   string `json:"kind"` // matrix | dl-block | dl-ready | nodl | be | multi | fnp-none | fnp-leave | stale | be-multi | be-race | dl-churn | dl-inherit | dl-cross | nodl-leave | dl-behind | dl-retry
+	Kind   string `json:"kind"` // matrix | dl-block | dl-ready | nodl | be | multi | fnp-none | fnp-leave | stale | be-multi | be-race | dl-churn | dl-inherit | dl-cross | nodl-leave | dl-behind | dl-retry | dl-flap
 	Proto  string `json:"proto"`
 	Obj    string `json:"obj"`            // sock | ctx
 	Op     string `json:"op,omitempty"`   // send | recv
@@ -62,6 +63,9 @@ type spec struct {
 	Blk   string `json:"blk,omitempty"`
 	BDUs  int64  `json:"bd_us,omitempty"`
 	Early bool   `json:"early,omitempty"`
+	// dl-flap — Mode: what keeps happening at the socket while the timed call is parked
+	// (flap | retry | flap-others | leave-many, see flap_test.go); K (retry): deadline / retry time
+	Mode string `json:"mode,omitempty"`
 }
 
 func (s spec) BD() time.Duration { return time.Duration(s.BDUs) * time.Microsecond }
@@ -88,6 +92,9 @@ func (s spec) variant() string {
 	if s.Kind == "dl-retry" {
 		v += "/same-message-retried"
 	}
+	if s.Kind == "dl-flap" {
+		v += "/" + flapModeName[s.Mode]
+	}
 	return v
 }
 
@@ -96,6 +103,15 @@ func TestMain(m *testing.M) { hx.Main(m) }
 func TestC18(t *testing.T) {
 	r := mon.NewRunner(t, "C18")
 	cases := genCases(r.Rand(), r.Thorough())
+	if k := os.Getenv("VERIF_C18_KIND"); k != "" { // development aid (never set by the driver): only the cases of one kind
+		var sel []mon.CaseSpec
+		for _, cs := range cases {
+			if cs.Spec.(spec).Kind == k {
+				sel = append(sel, cs)
+			}
+		}
+		cases = sel
+	}
 	r.Run(cases, func(c *mon.Case) {
 		sp := c.Spec.(spec)
 		runCase(c, sp)
@@ -532,6 +548,9 @@ func genCases(rnd *rand.Rand, thorough bool) []mon.CaseSpec {
 	genBehind(rnd, thorough, reps, add, pickQ)
 	// ==== fourth part (appended): a Send that timed out is retried with the very same message object
 	genRetry(rnd, thorough, reps, add, pickQ)
+	// ==== fifth part (appended): peers come and go / the request is retransmitted for as long as the
+	// timed call is parked
+	genFlap(rnd, thorough, reps, add, pickQ)
 	return cases
 }
 
@@ -567,6 +586,8 @@ func runCase(c *mon.Case, sp spec) {
 		runBehind(c, sp)
 	case "dl-retry":
 		runRetry(c, sp)
+	case "dl-flap":
+		runFlap(c, sp)
 	default:
 		panic("unknown kind " + sp.Kind)
 	}
